@@ -334,4 +334,44 @@ theorem key_provenance (a : Agent) (fs : KeyDir) (ans : Answers) :
       simp only [hv', Bool.not_false, ↓reduceIte]
       exact Or.inl trivial
 
+
+/-! ### a rule change at the level of actor messages
+
+`applyRules` is one step in the model; the source makes it with separate messages to the state actor
+(`Get…RuleId`, `Set…RuleId`, `Set…Rules`), and a request can read the rules between any two of them. -/
+section ruleMessages
+
+/-- the messages together are the compare-and-set of the model -/
+theorem rule_change_refines_cas (c : RuleCell) (new : Option RuleItem) :
+    (changeProgram c new).foldl rstep c = ⟨(casRules c.id c.rules new).1, (casRules c.id c.rules new).2⟩ := by
+  unfold changeProgram casRules
+  split <;> rfl
+
+/-- **C09 / C01 (rule change in progress)** wherever a request's read falls among the messages of a rule
+change, it finds the rules that were in force before or the new ones — never a state without rules when
+both documents carry some -/
+theorem reader_between_messages_sees_old_or_new (c : RuleCell) (new : Option RuleItem) (k : Nat) :
+    (((changeProgram c new).take k).foldl rstep c).rules = c.rules ∨
+    (((changeProgram c new).take k).foldl rstep c).rules = new := by
+  unfold changeProgram
+  split
+  · left; simp
+  · match k with
+    | 0 => left; rfl
+    | 1 => left; rfl
+    | k + 2 => right; simp [List.take, rstep]
+
+/-- negative witness: an actor that forgets the rules when the id is set leaves a window without rules -/
+theorem dropping_rules_at_set_id_opens_a_window :
+    let old : RuleItem := ⟨"a".toList, sEnforce, 1⟩
+    let new : RuleItem := ⟨"b".toList, sEnforce, 2⟩
+    let dropStep (c : RuleCell) : RMsg → RuleCell
+      | .setId i => { id := i, rules := none }
+      | .setRules r => { c with rules := r }
+    (((changeProgram ⟨old.id, some old⟩ (some new)).take 1).foldl dropStep ⟨old.id, some old⟩).rules = none ∧
+    (((changeProgram ⟨old.id, some old⟩ (some new)).take 1).foldl rstep ⟨old.id, some old⟩).rules = some old := by
+  decide
+
+end ruleMessages
+
 end Gpa.Props.C09
